@@ -367,7 +367,7 @@ def outcome_events(ts):
     if k in ('fail', 'setup_fail'):
         return (1, 0, 0, 0)
     if k in ('error', 'setup_error', 'teardown_error', 'cleanup_error',
-             'sysexit'):
+             'cleanup_builtin_error', 'sysexit'):
         return (0, 1, 0, 0)
     if k in ('body_teardown_error', 'body_cleanup_error'):
         return (0, 2, 0, 0)
